@@ -45,10 +45,10 @@ type engine struct {
 	reg  *prometheus.Registry
 	peer *fakePeer // clients: their handle on the relay
 
-	subs      []*lsub
-	delivered map[string]bool // msg ids that reached (or, own ids, originate from) this client's handlers
-	grayIds   map[string]bool // msg ids that arrived before without being delivered
-	statuses  int
+	subs            []*lsub
+	delivered       map[string]bool // msg ids that reached (or, own ids, originate from) this client's handlers
+	seenUndelivered map[string]bool // msg ids that arrived on messages that were (rightly) dropped
+	statuses        int
 }
 
 type lsub struct {
@@ -215,6 +215,7 @@ func engineConfig() pubsub.Config {
 		MaxTimestampSkew:     skew,
 		ResyncInterval:       20 * time.Second,
 		DialQueueWorkers:     1, // one sender: frames of one client leave in call order
+		DialQueueSize:        1 << 12,
 	}
 }
 
@@ -281,7 +282,7 @@ func newWorld(c Case, nClients, nAcc int) (*world, error) {
 }
 
 func (w *world) newEngine(idx int, a *acct, deps pubsub.Deps) (*engine, error) {
-	e := &engine{idx: idx, acc: a, reg: prometheus.NewRegistry(), delivered: map[string]bool{}, grayIds: map[string]bool{}}
+	e := &engine{idx: idx, acc: a, reg: prometheus.NewRegistry(), delivered: map[string]bool{}, seenUndelivered: map[string]bool{}}
 	deps.Metric = &metricStub{reg: e.reg}
 	e.svc = pubsub.New(deps)
 	e.app = new(app.App)
@@ -869,9 +870,6 @@ func (w *world) checkHandlers(ev *pubEvent, lp *localPub, toClients []frame, cal
 		matching := subsOf(ci, g.SpaceId, g.Topic)
 		key := string(g.MsgId)
 		if len(matching) == 0 {
-			if !cl.delivered[key] {
-				cl.grayIds[key] = true
-			}
 			continue
 		}
 		signer := accIndexByIdent(g.Identity)
@@ -889,20 +887,26 @@ func (w *world) checkHandlers(ev *pubEvent, lp *localPub, toClients []frame, cal
 		case cl.delivered[key]:
 			why = "handler-drop-replayed"
 		}
+		if why != "" && !cl.delivered[key] {
+			cl.seenUndelivered[key] = true
+		}
 		switch {
 		case why != "":
 			w.classes[why] = true
 			for _, s := range matching {
 				bump(s.id, 0, 0)
 			}
-		case cl.grayIds[key] || g.TimestampMilli == 0:
-			// an id that arrived before without reaching a handler, or a message
-			// without timestamp: the statement does not decide
-			cl.grayIds[key] = true
+		case g.TimestampMilli == 0:
+			// a message without timestamp: the statement does not decide
 			for _, s := range matching {
 				bump(s.id, 0, 1)
 			}
 		default:
+			// an id seen before only on messages that never reached a handler (forged,
+			// stale, unmatched at the time) is not a replay: the genuine message counts
+			if cl.seenUndelivered[key] {
+				w.classes["handler-delivered-after-undelivered-twin"] = true
+			}
 			cl.delivered[key] = true
 			w.classes["handler-delivered"] = true
 			for _, s := range matching {
